@@ -44,10 +44,13 @@ register("C07", {
     "level": "exploration",
     "rule": "seeded swarm over 2-6 concurrent callers, max_connections 1..3, 1-3 origins, "
             "pool time-outs, cancellations while queued, HTTP/1.1-after-HTTP/2-capable "
-            "re-queues; liveness judged only at quiescence (deadlock detector, "
-            "serviceable-waiter invariant, termination); non-trivial = >=2 callers or a "
-            "fault fired",
+            "re-queues, HTTP/2 shutdowns (GOAWAY) while responses are held open at a stream "
+            "limit of 1-2; liveness judged only at quiescence (deadlock detector, "
+            "serviceable-waiter invariant, no request parked on a connection that had already "
+            "been told GOAWAY when it was handed over, termination); non-trivial = >=2 callers "
+            "or a fault fired",
     "assumptions": ["every caller script closes what it opens and every server answers, so "
                     "no legitimate infinite wait exists", "reads pool._requests (guarded) to "
-                    "identify queued requests"],
+                    "identify queued requests",
+                    "observes PoolRequest.assign_to_connection from outside (guarded)"],
 }, FAMS)
